@@ -47,6 +47,31 @@ theorem urllib_tables_unchanged :
 theorem protocol_pattern_unchanged :
     Gen.protocolRePattern = protocolPatternModelled ∧ Gen.protocolReFlags = 32 := by decide
 
+/-- the cleaning class of the running code is the one `cleanedUrl` models: what
+`CONTROL_CHARS_RE.sub("", ·)` removes (observed by the translator on the string of all code points,
+so a respelling of the pattern is a harmless edit) is `[\x00-\x1f\x7f-\x9f]`, and `str.strip()`
+removes the 29 code points of `Py.spaceCodes` -/
+theorem cleaning_class_unchanged :
+    Gen.controlRemovedRanges = [(0, 0x1f), (0x7f, 0x9f)] ∧ Gen.stripRemovedCodes = spaceCodes := by
+  decide
+
+/-- … hence `cleanedUrl` is the regenerated cleaning: drop the code points of the regenerated
+ranges, then the regenerated strip set from both ends -/
+theorem cleanedUrl_is_regenerated_cleaning (u : Str) :
+    cleanedUrl u =
+      let inStrip := fun (c : Char) => Gen.stripRemovedCodes.contains c.toNat
+      let kept := u.filter (fun c => !Gen.controlRemovedRanges.any (fun r => r.1 ≤ c.toNat && c.toNat ≤ r.2))
+      ((kept.dropWhile inStrip).reverse.dropWhile inStrip).reverse := by
+  obtain ⟨h1, h2⟩ := cleaning_class_unchanged
+  rw [h1, h2]
+  unfold cleanedUrl strip rstrip lstrip UrlParts.stripControl
+  have e : (fun c => !UrlParts.isControlChar c) =
+      (fun (c : Char) => !List.any [(0, 0x1f), (0x7f, 0x9f)] (fun r => decide (r.1 ≤ c.toNat) && decide (c.toNat ≤ r.2))) := by
+    funext c
+    simp [UrlParts.isControlChar]
+  rw [e]
+  rfl
+
 /-! ## termination, fixed point, iteration — for ANY target function
 
 `inferOf target` is the recursion of the code (clean the url, follow `target (cleaned url)`
@@ -156,6 +181,97 @@ theorem inferFuel_eq (fuel : Nat) (u : Str) (h : u.length ≤ fuel) :
         exact ih t (by omega)
       · simp only [if_neg ht]
 
+/-! ### every hop reads the cleaned form of what it is given -/
+
+/-- the non-recursive form is: clean the argument, follow what the cleaned url designates -/
+theorem stepOf_eq_hop (u : Str) : stepOf target u = (followed target (cleanedUrl u)).getD u := by
+  unfold stepOf followed
+  cases target (cleanedUrl u) with
+  | none => rfl
+  | some t => by_cases h : t.length < (cleanedUrl u).length <;> simp [h]
+
+/-- … and so is EVERY level of the recursion: the recursive call is made on the target, which is
+cleaned again before anything is looked for in it -/
+theorem inferOf_eq_hop (u : Str) :
+    inferOf target u =
+      match followed target (cleanedUrl u) with
+      | some t => inferOf target t
+      | none => u := by
+  rw [inferOf_unfold]
+  unfold followed
+  cases target (cleanedUrl u) with
+  | none => rfl
+  | some t => by_cases h : t.length < (cleanedUrl u).length <;> simp [h]
+
+/-- a hop either finds nothing to follow in the cleaned url — the recursion stops — or follows a
+strictly shorter target, on which the recursion goes on -/
+theorem hop_cases (u : Str) :
+    (followed target (cleanedUrl u) = none ∧ stepOf target u = u ∧ inferOf target u = u) ∨
+    (∃ t, followed target (cleanedUrl u) = some t ∧ stepOf target u = t ∧ t.length < u.length ∧
+      inferOf target u = inferOf target t) := by
+  rw [inferOf_eq_hop, stepOf_eq_hop]
+  cases h : followed target (cleanedUrl u) with
+  | none => exact Or.inl ⟨rfl, rfl, rfl⟩
+  | some t =>
+    exact Or.inr ⟨t, rfl, rfl,
+      Nat.lt_of_lt_of_le (followed_length_lt target _ t h) (cleanedUrl_length_le u), rfl⟩
+
+/-- the fuel-driven recursion IS the iterated non-recursive form — the iterate of
+"clean, then follow" —, for every amount of fuel -/
+theorem inferFuel_eq_iterStep (n : Nat) (u : Str) :
+    inferFuel target n u = iterStep (stepOf target) n u := by
+  induction n generalizing u with
+  | zero => rfl
+  | succ n ih =>
+    show inferFuel target (n + 1) u = iterStep (stepOf target) n (stepOf target u)
+    have hfix : ∀ v, stepOf target v = v → iterStep (stepOf target) n v = v :=
+      fun v hv => iterStep_fixed _ n v hv
+    simp only [inferFuel]
+    cases ht : target (cleanedUrl u) with
+    | none =>
+      have hs : stepOf target u = u := by unfold stepOf; rw [ht]
+      rw [hs, hfix u hs]
+    | some t =>
+      by_cases h : t.length < (cleanedUrl u).length
+      · have hs : stepOf target u = t := by unfold stepOf; rw [ht]; simp [h]
+        rw [hs]; simp only [if_pos h]; exact ih t
+      · have hs : stepOf target u = u := by unfold stepOf; rw [ht]; simp [h]
+        rw [hs, hfix u hs]; simp only [if_neg h]
+
+/-- **every hop cleans.**  The recursive result is reached by `n ≤ len(u)` hops
+`u = x₀, x₁, …, xₙ`; each `xᵢ₊₁` is what the CLEANED form of `xᵢ` designates — also for `i ≥ 1`,
+where `xᵢ` is a percent-decoded value that may hold control characters or padding that were
+escaped in `u` —, and nothing is left to follow in the cleaned form of the result. -/
+theorem inferOf_hops_clean (u : Str) :
+    ∃ n, n ≤ u.length ∧ iterStep (stepOf target) n u = inferOf target u ∧
+      (∀ i, i < n → followed target (cleanedUrl (iterStep (stepOf target) i u)) =
+        some (iterStep (stepOf target) (i + 1) u)) ∧
+      followed target (cleanedUrl (inferOf target u)) = none := by
+  induction u using length_induction with
+  | _ u ih =>
+    rcases hop_cases target u with ⟨h0, _, h2⟩ | ⟨t, h0, hs, hlt, h2⟩
+    · exact ⟨0, Nat.zero_le _, by rw [h2]; rfl, fun i hi => absurd hi (Nat.not_lt_zero _), by rw [h2]; exact h0⟩
+    · obtain ⟨m, hm, him, hall, hend⟩ := ih t hlt
+      refine ⟨m + 1, by omega, ?_, ?_, by rw [h2]; exact hend⟩
+      · show iterStep (stepOf target) m (stepOf target u) = inferOf target u
+        rw [hs, h2]; exact him
+      · intro i hi
+        cases i with
+        | zero =>
+          show followed target (cleanedUrl u) = some (iterStep (stepOf target) 0 (stepOf target u))
+          rw [hs]; exact h0
+        | succ i =>
+          show followed target (cleanedUrl (iterStep (stepOf target) i (stepOf target u))) =
+            some (iterStep (stepOf target) (i + 1) (stepOf target u))
+          rw [hs]; exact hall i (by omega)
+
+/-- what a level of the recursion does with a target `t` is what it does with the cleaned form of
+`t`: both resolve to the same string, or each to itself -/
+theorem inferOf_hop_reads_cleaned (t : Str) :
+    inferOf target t = inferOf target (cleanedUrl t) ∨
+      (inferOf target t = t ∧ inferOf target (cleanedUrl t) = cleanedUrl t) :=
+  inferOf_clean_congr target t (cleanedUrl t) (cleanedUrl_idempotent t).symm
+
 end Generic
 
 /-! ## the statements for `infer_redirection` -/
@@ -182,6 +298,37 @@ applying it once more changes nothing. -/
 theorem infer_is_iterated_step (u : Str) :
     ∃ n, n ≤ u.length ∧ iterStep inferStep n u = infer u ∧ inferStep (infer u) = infer u :=
   inferOf_is_iterated_step inferTarget u
+
+/-- **every hop of `infer_redirection` cleans what it is given** (`inferOf_hops_clean` for the
+modelled extraction): the chain of targets leading to the recursive result is obtained by
+"clean, then follow" at every level, and the cleaned result designates nothing to follow -/
+theorem infer_every_hop_cleans (u : Str) :
+    ∃ n, n ≤ u.length ∧ iterStep inferStep n u = infer u ∧
+      (∀ i, i < n → followed inferTarget (cleanedUrl (iterStep inferStep i u)) =
+        some (iterStep inferStep (i + 1) u)) ∧
+      followed inferTarget (cleanedUrl (infer u)) = none :=
+  inferOf_hops_clean inferTarget u
+
+/-- `infer_redirection(u)` is the `len(u)`-fold iterate of `infer_redirection(·, recursive=False)`
+— of "clean, then follow" (`stepOf_eq_hop`) -/
+theorem infer_eq_iterated_step (u : Str) : infer u = iterStep inferStep u.length u := by
+  rw [← (infer_total u).2]
+  exact inferFuel_eq_iterStep inferTarget u.length u
+
+/-- **per-hop cleaning is what the fixed-point clause rests on**: for the recursion that cleans its
+argument once, at the entry, and lets the hops look at their decoded targets as they are
+(`inferCleanOnce`), the clause FAILS — its result is not a fixed point of the non-recursive form
+and is not what repeated non-recursive application converges to.  (The inner url, once decoded,
+holds a TAB between `?` and the key `l`: a fresh call removes it and follows `/z`, the uncleaned
+hop finds no hint.)  A
+tree that recurses that way therefore disagrees with `infer`, and with its own non-recursive form,
+on such inputs: `harness/props/C15.py: unclean_hops` enumerates them. -/
+theorem clean_once_is_not_a_fixed_point :
+    ∃ u, inferStep (inferCleanOnce inferTarget u) ≠ inferCleanOnce inferTarget u ∧
+      inferCleanOnce inferTarget u ≠ inferFuel inferTarget u.length u ∧
+      inferFuel inferTarget u.length u = infer u :=
+  ⟨"http://a.com/?u=http%3A%2F%2Fb.com%2Fp%3F%09l%3D%2Fz".toList,
+    by decide +kernel, by decide +kernel, (infer_total _).2⟩
 
 /-- the result is never longer than the input -/
 theorem infer_never_longer (u : Str) : (infer u).length ≤ u.length :=
@@ -332,6 +479,13 @@ example : inferStep "\x00 http://a.com/x?redi\x00rect=/z \n".toList = "http://a.
     inferStep " url=http://b.com/x".toList = "http://b.com/x".toList ∧
     inferStep "http://x.cdn.ampproject.org/c/ ".toList = "http://x.cdn.ampproject.org/c/ ".toList ∧
     inferStep "\t\thttp://x&u=%2Fx@a.com/p".toList = "\t\thttp://x&u=%2Fx@a.com/p".toList := by
+  decide +kernel
+-- an inner hop that has to be cleaned: the decoded target holds a TAB before the key / a NEL (U+0085) and a blank at its end
+example : inferStep "http://a.com/?u=http%3A%2F%2Fb.com%2Fp%3F%09l%3D%2Fz".toList = "http://b.com/p?\tl=/z".toList ∧
+    cleanedUrl "http://b.com/p?\tl=/z".toList ≠ "http://b.com/p?\tl=/z".toList ∧
+    followed inferTarget (cleanedUrl "http://b.com/p?\tl=/z".toList) = some "http://b.com/z".toList ∧
+    inferFuel inferTarget 200 "http://a.com/?u=http%3A%2F%2Fb.com%2Fp%3F%09l%3D%2Fz".toList = "http://b.com/z".toList ∧
+    inferFuel inferTarget 200 "a.com?url=http%3A%2F%2Fb.com%2Fp%3Fnext%3D%2Fz%C2%85%20".toList = "http://b.com/z".toList := by
   decide +kernel
 example : Embedded "\x00http://a.com/x?redirect=/z".toList "http://a.com/z".toList :=
   Or.inr (Or.inr ⟨"http://a.com/x?".toList, "redirect".toList, "/z".toList, [],
